@@ -164,9 +164,10 @@ def rule_eval_dispatch(P):
                 if key in seen:
                     continue
                 seen.add(key)
-                ctx = {(_nz(t), arm) for t, arm in _context(g, k)}
-                rel = sorted({a for t, a in ctx if re.fullmatch(r"!?[\w>.-]+isForRelations\(\)", t)})
-                idr = sorted({a for t, a in ctx if re.fullmatch(r"!?[\w>.-]+isIdentityReduced\(\)", t)})
+                flip = {"true": "false", "false": "true"}
+                ctx = {(_nz(t).lstrip("!"), flip.get(arm, arm) if _nz(t).startswith("!") else arm) for t, arm in _context(g, k)}
+                rel = sorted({a for t, a in ctx if re.fullmatch(r"[\w>.-]+isForRelations\(\)", t)})
+                idr = sorted({a for t, a in ctx if re.fullmatch(r"[\w>.-]+isIdentityReduced\(\)", t)})
                 want = {"set_eval": (["false"], None), "fully_rel_eval": (["true"], ["false"]), "ident_rel_eval": (["true"], ["true"])}[nm]
                 n += 1
                 R.functions.add(f["inst"])
